@@ -15,9 +15,19 @@ def cfgname(d):
     return d.get('block', '?') + '(' + ','.join('%s=%s' % (k, v) for k, v in sorted(d.items()) if k != 'block') + ')'
 
 
+def corner_values(w):
+    M = 1 << w
+    vals = {0, 1, 2, 3, (M >> 1) - 1, M >> 1, (M >> 1) + 1, M - 2, M - 1, M // 3, (M // 3) * 2, 0x55 * (M // 255) if w >= 8 else 5,
+            1 << (w // 2), (1 << (w // 2)) - 1, M - (1 << (w // 2))}
+    return sorted(v for v in vals if 0 <= v < M)
+
+
 def enumerate_vectors(ins, alphabets=None):
     """All vectors over the input wires; alphabets: optional dict name->list of values."""
     doms = []
+    if alphabets == 'corner':
+        # wide ports: boundary values and alternating patterns; ports of <= 6 bits keep their full range
+        alphabets = {n: corner_values(w.getWidth()) for n, w in ins if w.getWidth() > 6}
     for n, w in ins:
         if alphabets and n in alphabets:
             doms.append(list(alphabets[n]))
